@@ -32,6 +32,10 @@ def pos(t):
 
 
 def find_state(env):
+    """the _RetryState of this run: found by type, not by the local's name"""
+    for v in env.vars.values():
+        if isinstance(v, Obj) and v.cls is not None and v.cls.name == "_RetryState":
+            return v
     return env.lookup("state")
 
 
@@ -104,7 +108,10 @@ def make_loop_spec(prop_list):
 
     def modifies(it, env, ctx):
         st = ctx["state"]
-        return [(st, f) for f in sv.FIELDS]
+        # every field of the state the code base ever assigns outside __init__ (the contract's own fields plus any the code
+        # added since): havoced at the loop cut - the invariant constrains only what it knows about
+        mut = it.mutable_fields()
+        return [(st, f) for f in st.fields if f in sv.FIELDS or (f in mut and f not in sv.STABLE)]
 
     def havoc(it, env, ctx):
         old = G(it)
@@ -168,6 +175,14 @@ def install(it, runner):
             it_.path.oblige(f"{fn}/C03/unexpected-stop-reason-write/{nm}", False, prop="C03")
 
     it.field_hooks.append(reason_write)
+
+    # frame: a run never writes to the policy object (no counter can carry over between calls on one policy - C01)
+    def policy_frame(it_, o, attr, mode, node):
+        if mode == "write" and o is W(it_).policy:
+            fn = it_.frames[-1].func.key if it_.frames and it_.frames[-1].func else "?"
+            it_.path.oblige(f"{fn}/C01/frame/policy-object-not-modified/{attr}", False, prop=None)
+
+    it.field_hooks.append(policy_frame)
     # ContinueAction -> back-edge: ghost bookkeeping happens when `continue` executes in the runner
     orig_continue = it.s_Continue
 
@@ -420,7 +435,7 @@ def t_runner(it, runner, split=None):
 def mk(runner):
     key = RUNNERS[runner][0]
     t = Task(f"runner.{runner}", lambda it: t_runner(it, runner),
-             ["C01", "C02", "C03", "C04", "C05", "C10", "C11", "C12", "C13", "C14", "C15", "C16"], [key])
+             ["C01", "C02", "C03", "C04", "C05", "C09", "C10", "C11", "C12", "C13", "C14", "C15", "C16"], [key])
     t.weight = 20
     t.split_depth = 9
     t.split_chunks = 32
